@@ -64,6 +64,7 @@ def loop_property(pid, extra_note=None):
             modelled_calls=stats['modelled'],
             opaque_calls=stats['opaque'],
             shared_exploration_reused=stats['shared_exploration_reused'],
+            exploration_wall_s=round(stats.get('wall_s', 0.0), 1),
             exhaustive=False,
             bounds="per configuration: max_msgs dequeued messages, max_polls polls of the loop future, every leaf future "
                    "pending <= max_pending times, <= max_items stream items; MIR loops unrolled <= 8 per activation",
@@ -136,7 +137,7 @@ def sys_property(pid, note=None, also_loop=False):
             native_mismatches=stats.get('native_mismatches', []), native_confirmations=stats.get('native_confirmations', {}),
             samples=stats['samples'], solver_queries=stats['solver_calls'], solver_s=round(stats['solver_s'], 2),
             schedules_cut_by_bound=stats['bound'], paths_truncated_by_loop_bound=stats['truncated'],
-            programs=stats['programs'], functions_encoded=stats['functions'], modelled_calls=stats['modelled'],
+            programs=len(stats['programs']), program_list=stats['programs'], functions_encoded=stats['functions'], modelled_calls=stats['modelled'],
             opaque_calls=stats['opaque'], exploration_wall_s=round(stats['wall_s'], 1),
             shared_exploration_reused=stats['shared_exploration_reused'], exhaustive=False, note=note or '')
         out = dict(violations=vio, coverage=cov, assumptions=list(SYS_ASSUMPTIONS))
@@ -153,7 +154,9 @@ def sys_property(pid, note=None, also_loop=False):
             for x in lres.get(pid, []):
                 vio.append(dict(sig=_sig(pid, x), msg=x['msg'], cfg=x['cfg'], trace=[list(map(str, e)) for e in x['trace']], choices=x['choices']))
             if lstats is not None:
-                cov['loop_level'] = dict(paths=lstats['paths'], solver_queries=lstats['solver_calls'], solver_s=round(lstats['solver_s'], 2), configurations=lstats['configs'])
+                cov['loop_level'] = dict(paths=lstats['paths'], solver_queries=lstats['solver_calls'], solver_s=round(lstats['solver_s'], 2),
+                                         exploration_wall_s=round(lstats.get('wall_s', 0.0), 1), configurations=lstats['configs'],
+                                         functions_encoded=lstats['functions'], modelled_calls=lstats['modelled'])
                 cov['evaluations'] += lstats['paths']
                 cov['distinct_nontrivial'] += lstats.get('distinct_traces', 0)
                 cov['solver_queries'] += lstats['solver_calls']
@@ -215,7 +218,7 @@ def entry_property(pid):
             native_runs=stats.get('native_runs', {}),
             samples=stats['samples'], solver_queries=stats['solver_calls'], solver_s=round(stats['solver_s'], 2),
             schedules_cut_by_bound=stats['bound'], paths_truncated_by_loop_bound=stats['truncated'],
-            programs=stats['programs'], functions_encoded=stats['functions'], modelled_calls=stats['modelled'],
+            programs=len(stats['programs']), program_list=stats['programs'], functions_encoded=stats['functions'], modelled_calls=stats['modelled'],
             opaque_calls=stats['opaque'], exploration_wall_s=round(stats['wall_s'], 1),
             shared_exploration_reused=was_cached, exhaustive=False,
             bounds="runtimes x (14 entry points + program family), <= max_steps scheduler steps, preemption bound per program, "
